@@ -9,6 +9,7 @@ import math
 import numpy as np
 
 LEVEL = "proof"
+EXTRA_PROPS = ["QuantemModel.Props.C10Ext"]   # growth 6: GS end to end, center_probe, reads without memory
 MANIFEST_ENTRY = {
     "category": "proof",
     "text": "Lean 4 theorems (at the real/complex instance of the numeric carrier) over an executable model of "
@@ -1852,6 +1853,251 @@ RUNNERS["registry"] = run_registry
 RUNNERS["object_dip"] = run_object_dip
 
 
+# --------------------------------------------------------------------------------------
+# growth round 6: ProbeConstraints.apply_hard_constraints with BOTH options (center_probe was not modelled before), three and more
+# modes in every raw intensity order, H > W and H < W, repeated reads / a raw parameter replaced between reads / two live models;
+# the object read, retyped / reconfigured and read again without an optimiser step
+def _dyadic(n):
+    return n & (n - 1) == 0
+
+
+def gen_probe_hard2_case(rng, prec, n=None, roi=None, order=None, orth=True, center=None, tie=None, seed=None):
+    n = n or rng.weighted([(1, 1), (2, 2), (3, 4), (4, 3), (5, 2)])
+    H, W = roi or rng.choice([(2, 4), (4, 2), (4, 8), (8, 4), (3, 5), (5, 3), (4, 4), (3, 4), (2, 7), (6, 2)])
+    order = order or rng.choice(["asc", "desc", "unsorted"])
+    center = rng.chance(0.5) if center is None else center
+    while True:
+        st = gen_stack(rng, n, H, W, prec).reshape(n, H * W)
+        st = st / np.linalg.norm(st, axis=1)[:, None]
+        nn = np.sort(np.array([10.0 ** rng.uniform(-0.6, 0.6) for _ in range(n)]))
+        if n > 1 and float(np.min(nn[1:] / nn[:-1])) < 1.03:
+            continue
+        break
+    if tie == "pair" and n >= 2:
+        nn[1] = nn[0]
+    elif tie == "all":
+        nn[:] = nn[0]
+    if order == "desc":
+        nn = nn[::-1]
+    elif order == "unsorted" and n > 2:
+        perm = list(range(n))
+        while perm == sorted(perm) or perm == sorted(perm, reverse=True):
+            perm = rng.shuffle(perm)
+        nn = nn[perm]
+    st = rnd(st * nn[:, None], prec)
+    return {"stream": "probe_hard2", "prec": prec, "n": n, "roi": [H, W], "order": order, "orth": bool(orth), "center": bool(center),
+            "tie": tie, "modes": cx_to_list(st)}
+
+
+def _capture_shift(pmod):
+    """wrap the module-level `fourier_shift_expand` of probe_models (a public helper imported from ptycho_utils) to see the
+    offsets `_probe_center_of_mass_constraint` hands to it; if the name is gone the internal-stage comparison is skipped"""
+    orig = getattr(pmod, "fourier_shift_expand", None)
+    seen = []
+    if orig is None:
+        return None, seen, lambda: None
+
+    def wrapped(array, positions, *a, **k):
+        try:
+            seen.append(np.asarray(positions.detach().cpu().numpy() if hasattr(positions, "detach") else positions, dtype=np.float64))
+        except Exception:
+            pass
+        return orig(array, positions, *a, **k)
+    pmod.fourier_shift_expand = wrapped
+    return orig, seen, lambda: setattr(pmod, "fourier_shift_expand", orig)
+
+
+def _hard2_read(ctx, drv, case, pm, vs, label):
+    """one constrained read of `pm` whose raw parameter is `vs` (n, H, W): Lean `probeApplyHard2` vs `pm.probe`, the
+    centre-of-mass offsets as an internal stage, the property predicate on the real output"""
+    import torch
+    import quantem.diffractive_imaging.probe_models as pmod
+    prec, n = case["prec"], case["n"]
+    H, W = case["roi"]
+    orth, center, tie = case["orth"], case["center"], case.get("tie")
+    orig, seen, restore = _capture_shift(pmod)
+    try:
+        with torch.no_grad():
+            out = pm.probe.detach().numpy().astype(np.complex128)
+    finally:
+        restore()
+    ctx.count()
+    ctx.dist[f"probe_hard2:{prec}:n={n}:orth={orth}:center={center}"] += 1
+    ctx.dist[f"probe_hard2:shape={'H>W' if H > W else ('H<W' if H < W else 'H=W')}"] += 1
+    ctx.dist[f"probe_hard2:order={case.get('order')}:tie={tie}"] += 1
+    ctx.dist[f"probe_hard2:read={label}"] += 1
+    ctx.mark(("probe_hard2", prec, n, orth, center, H > W, H < W, case.get("order"), tie, label))
+    if out.shape != (n, H, W):
+        ctx.pred_fail(f"gs-mode-count:n={n}:{label}", "the probe handed out has a different shape than the raw stack", small(case),
+                      list(out.shape), [n, H, W])
+        return
+    dy = _dyadic(H) and _dyadic(W)
+    # the phase ramp of fourier_translation_operator goes through float32 stages (fftfreq cast to float32; ~2e-8 seen on the
+    # unchanged tree even for power-of-two sizes): centred reads are compared at the float32-path tolerance class
+    tol = TOL[prec] if not center else max(TOL[prec], 2e-5)
+    if not tie:          # torch.argsort is not stable and the restored norms differ by ulps: tied stacks have no unique order
+        rep = drv.ask({"op": "probe_hard2", "orth": orth, "center": center, "probes": enc_img3(vs)})
+        if "ok" not in rep:
+            ctx.disagree("probe_hard2", small(case), rep, "ok", "driver error")
+        else:
+            model = dec_img3(rep["ok"]["probes"])
+            ok, d = close(out, model, tol)
+            ctx.stat_max(f"probe_hard2:{prec}:{'dyadic' if dy else 'nondyadic'}:center={center}:max_rel_dist", d)
+            if not ok:
+                ctx.disagree("probe_hard2", small(case), cx_to_list(model), cx_to_list(out), f"{label}: rel dist {d:.3g} > {tol}")
+            if center and orig is not None:
+                if len(seen) == 1 and seen[0].shape == (n, 2):
+                    msh = -dec_real2(rep["ok"]["shifts"])     # the code hands over MINUS the offset
+                    oks, ds = close(seen[0], msh, max(tol, 1e-7 if prec == "f64" else 5e-4))
+                    ctx.stat_max(f"probe_hard2:{prec}:com_offset:max_rel_dist", ds)
+                    if not oks:
+                        ctx.disagree("probe_hard2-com-offset", small(case), msh.tolist(), seen[0].tolist(), f"{label}: centre-of-mass offsets differ {ds:.3g}")
+                else:
+                    ctx.extra["probe_hard2_com_stage"] = "fourier_shift_expand not called once per read with (n, 2) offsets: internal stage skipped"
+            elif center:
+                ctx.extra["probe_hard2_com_stage"] = "probe_models.fourier_shift_expand not found: internal stage skipped"
+    ptol = PTOL[prec] if prec == "f64" else 5e-5
+    flat_in, flat_out = vs.reshape(n, H * W), out.reshape(n, H * W)
+    Iin, Iout = np.sum(np.abs(flat_in) ** 2, axis=1), np.sum(np.abs(flat_out) ** 2, axis=1)
+    sfx = f":{label}" + (":center" if center else "") + (":tie" if tie else "")
+    if orth and not center:
+        gs_predicate(ctx, case, flat_in, flat_out, ptol, sfx)
+    elif orth:
+        # centring shifts every mode by its own offset (unitary per mode): the intensity clauses are evaluated, the orthogonality
+        # of differently shifted modes is only MEASURED (center_probe_keeps_intensities; see the report)
+        dI = float(np.max(np.abs(np.sort(Iout) - np.sort(Iin)) / np.sort(Iin)))
+        if not dI <= max(ptol, 2e-5):
+            ctx.pred_fail(f"gs-intensity-multiset:n={n}{sfx}", "multiset of mode intensities changed by the probe constraints", small(case),
+                          np.sort(Iout)[::-1].tolist(), np.sort(Iin)[::-1].tolist())
+        if n > 1 and not np.all(Iout[:-1] >= Iout[1:] * (1 - max(ptol, 2e-5))):
+            ctx.pred_fail(f"gs-not-descending:n={n}{sfx}", "constrained probe modes are not in descending intensity order", small(case),
+                          Iout.tolist(), "descending")
+        nn = np.sqrt(Iout)
+        w = max([abs(np.vdot(flat_out[i], flat_out[j])) / (nn[i] * nn[j]) for i in range(n) for j in range(i + 1, n)] or [0.0])
+        ctx.stat_max("probe_hard2:center:max_normalised_inner_product(measured only)", float(w))
+    else:
+        # orthogonalisation off: nothing is claimed by the property; the model says centring keeps each mode's intensity in place
+        dI = float(np.max(np.abs(Iout - Iin) / Iin))
+        ctx.stat_max(f"probe_hard2:{prec}:center-only:max_rel_intensity_change", dI)
+
+
+def run_probe_hard2(ctx, drv, case):
+    prec, n = case["prec"], case["n"]
+    H, W = case["roi"]
+    set_prec(prec)
+    vs = cx_from_list(case["modes"], (n, H, W))
+    pm = make_probe(vs, prec, False)
+    other = make_probe(vs[::-1].copy() * 0.5, prec, False)          # a second live model with ANOTHER stack and other options
+    other.add_constraint("center_probe", not case["center"])
+    pm.add_constraint("orthogonalize_probe", case["orth"])
+    pm.add_constraint("center_probe", case["center"])
+    ctx.sample({k: case[k] for k in case if k != "modes"})
+    _hard2_read(ctx, drv, case, pm, vs, "first")
+    _ = other.probe                                                 # the other model is read in between
+    _hard2_read(ctx, drv, case, pm, vs, "repeat")                  # the same call repeated
+    if n > 1:
+        vs2 = np.ascontiguousarray(np.roll(vs, 1, axis=0))          # the raw parameter replaced (modes in another order), no rebuild
+        pm.probe = vs2.copy()
+        _hard2_read(ctx, drv, case, pm, vs2, "after-new-raw")
+
+
+def gen_obj_retype_case(rng, prec, shape=None, seq=None):
+    S, H, W = shape or rng.choice([(1, 2, 3), (2, 3, 1), (2, 1, 3), (3, 2, 2), (2, 2, 4), (3, 4, 1)])
+    n = S * H * W
+    mag = np.array([rng.choice([0.25, 0.5, 1.0, 1.5, 3.0, rng.uniform(0.0, 2.5)]) for _ in range(n)])
+    ph = np.array([rng.choice([math.pi - 1e-3, -(math.pi - 1e-3), 3.0, -3.0, 0.5, -0.5, rng.uniform(-math.pi, math.pi)]) for _ in range(n)])
+    raw = rnd(mag * np.exp(1j * ph), prec)
+    mask = gen_mask(rng, S, H, W)
+    t0 = rng.choice(["complex", "pure_phase"])
+    other = {"complex": "pure_phase", "pure_phase": "complex"}
+    seq = seq or [rng.choice([{"op": "type", "t": other[t0]}, {"op": "cons", "k": "apply_fov_mask", "v": True},
+                              {"op": "cons", "k": "identical_slices", "v": True}, {"op": "type", "t": t0},
+                              {"op": "cons", "k": "apply_fov_mask", "v": False}, {"op": "cons", "k": "identical_slices", "v": False}])
+                  for _ in range(rng.randint(2, 4))]
+    return {"stream": "obj_retype", "prec": prec, "type": t0, "shape": [S, H, W], "seq": seq, "raw": cx_to_list(raw),
+            "mask": {"shape": list(mask.shape), "v": [float(x) for x in rnd(mask, prec).ravel()]}}
+
+
+def run_obj_retype(ctx, drv, case):
+    """read, change obj_type / a constraint, read again -- no optimiser step, no rebuild, everything under torch.no_grad():
+    every read must be the constraint of the CURRENT configuration (read_has_no_memory, read_after_retype_admissible)"""
+    from quantem.diffractive_imaging.object_models import ObjectPixelated
+    prec = case["prec"]
+    S, H, W = case["shape"]
+    set_prec(prec)
+    raw = cx_from_list(case["raw"], (S, H, W))
+    mask = np.array(case["mask"]["v"], dtype=np.float64).reshape(case["mask"]["shape"])
+    om = ObjectPixelated.from_array(raw.copy(), slice_thicknesses=1.0 if S > 1 else None, obj_type=case["type"])
+    om._initialize_obj((S, H, W), (1.0, 1.0))
+    om.mask = mask
+    twin = ObjectPixelated.from_array(raw.copy(), slice_thicknesses=1.0 if S > 1 else None, obj_type=case["type"])   # second live object,
+    twin._initialize_obj((S, H, W), (1.0, 1.0))                                                                       # never reconfigured
+    twin.mask = mask
+    cons = {k: (DEFAULTS_SNAPSHOT.get("object") or ObjectPixelated.DEFAULT_CONSTRAINTS)[k] for k in CONS_KEYS_REL}
+    cons0, t = dict(cons), case["type"]
+    ctx.dist["obj_retype:cases"] += 1
+    check_object(ctx, drv, dict(case, type=t), om, raw, cons, "obj", "obj_retype")
+    for op in case["seq"]:
+        if op["op"] == "type":
+            om.obj_type = op["t"]
+            t = op["t"]
+        else:
+            om.add_constraint(op["k"], op["v"])
+            cons[op["k"]] = op["v"]
+        ctx.dist[f"obj_retype:op={op['op']}"] += 1
+        check_object(ctx, drv, dict(case, type=t), om, raw, cons, "obj", "obj_retype")
+        check_object(ctx, drv, dict(case, type=case["type"]), twin, raw, cons0, "obj", "obj_retype:twin")
+
+
+RUNNERS["probe_hard2"] = run_probe_hard2
+RUNNERS["obj_retype"] = run_obj_retype
+
+
+def fixed_cases6():
+    """round-6 block (independent of VERIF_SEED): 3 / 4 / 5 modes with raw intensities ascending, descending, unsorted and tied,
+    H > W and H < W, center_probe on and off, each model read twice and once more after its raw parameter was replaced, a second
+    live model in between; objects read, retyped / reconfigured and read again; negative multi-slice potentials with a baseline"""
+    from qv.prng import Rng
+    out = []
+    k = 0
+    for n, roi in ((3, (2, 4)), (3, (4, 2)), (4, (4, 8)), (4, (8, 4)), (5, (3, 5)), (5, (5, 3)), (3, (3, 4)), (4, (2, 7))):
+        for order in ("asc", "desc", "unsorted"):
+            k += 1
+            out.append(gen_probe_hard2_case(Rng(6000 + k), "f64" if k % 2 else "f32", n=n, roi=roi, order=order, orth=True, center=bool(k % 3 == 0)))
+    for n, roi, tie in ((3, (2, 4), "pair"), (4, (4, 2), "all"), (5, (3, 5), "pair"), (3, (4, 4), "all")):
+        for center in (False, True):
+            k += 1
+            out.append(gen_probe_hard2_case(Rng(6000 + k), "f64", n=n, roi=roi, order="asc", orth=True, center=center, tie=tie))
+    for n, roi in ((2, (4, 2)), (3, (2, 8))):
+        k += 1
+        out.append(gen_probe_hard2_case(Rng(6000 + k), "f64", n=n, roi=roi, order="asc", orth=False, center=True))
+    for t0, t1 in (("complex", "pure_phase"), ("pure_phase", "complex")):
+        for shape in ((1, 2, 3), (2, 3, 1), (3, 1, 4)):
+            for extra in ({"op": "cons", "k": "apply_fov_mask", "v": True}, {"op": "cons", "k": "identical_slices", "v": True}):
+                k += 1
+                c = gen_obj_retype_case(Rng(6000 + k), "f64" if k % 2 else "f32", shape=shape,
+                                        seq=[{"op": "type", "t": t1}, extra, {"op": "type", "t": t0}])
+                c["type"] = t0
+                out.append(c)
+    for shape in ((3, 1, 4), (3, 4, 1), (2, 2, 3)):
+        S, H, W = shape
+        for fix, pos in ((True, True), (True, False), (False, True)):
+            k += 1
+            rng = Rng(6000 + k)
+            raw = -np.abs(np.array([gauss(rng) for _ in range(S * H * W)])) - 0.25 * (k % 2)       # negative potentials throughout
+            raw[rng.below(S * H * W)] = 0.5
+            m = np.array([1.0 if (i % W) < max(1, W // 2) or W == 1 and (i // W) % 2 == 0 else 0.0 for i in range(H * W)]).reshape(H, W)
+            out.append({"stream": "object", "prec": "f64" if k % 2 else "f32", "type": "potential", "shape": [S, H, W], "route": "obj",
+                        "cons": {"apply_fov_mask": bool(k % 2), "identical_slices": bool(k % 3 == 0), "positivity": pos,
+                                 "fix_potential_baseline": fix, "fix_potential_baseline_factor": 0.5 if k % 2 else 1.0},
+                        "inp": {"layout": "c", "container": "np", "width": 64}, "minp": {"layout": "c", "container": "np", "width": 64},
+                        "special": False, "fkind": "float", "thk": "float", "raw": [float(x) for x in rnd(raw, "f32")],
+                        "mask": {"shape": [H, W], "v": [float(x) for x in m.ravel()]}, "fixed": True})
+    for c in out:
+        c["fixed"] = True
+    return out
+
+
 def fixed_cases():
     """a fixed block (independent of VERIF_SEED) that enumerates the input classes earlier misses had in common, so that their
     coverage never depends on the seed: rejected calls of each kind followed by a valid re-initialisation; one of two / three live
@@ -1932,13 +2178,14 @@ def run(ctx):
         if not ctx.search_mode:
             run_case(ctx, drv, "object", CEX_CASE)
             run_case(ctx, drv, "gs_clamp", CLAMP_CASE)
-        for case in fixed_cases():          # the same block for every seed (and again in the failing-input search)
+        for case in fixed_cases() + fixed_cases6():          # the same block for every seed (and again in the failing-input search)
             ctx.dist[f"fixed-block:{case['stream']}"] += 1
             run_case(ctx, drv, case["stream"], case)
         plan = [("object", ctx.n(260, 20000)), ("tomo", ctx.n(30, 1000)), ("gs", ctx.n(110, 8000)),
                 ("gs_exact", ctx.n(60, 5000)), ("weights", ctx.n(90, 6000)), ("pipeline", ctx.n(8, 60)),
                 ("cons_history", ctx.n(80, 3000)), ("probe_history", ctx.n(50, 2000)),
-                ("probe_ops", ctx.n(90, 3000)), ("registry", ctx.n(90, 3000)), ("object_dip", ctx.n(40, 1500))]
+                ("probe_ops", ctx.n(90, 3000)), ("registry", ctx.n(90, 3000)), ("object_dip", ctx.n(40, 1500)),
+                ("probe_hard2", ctx.n(24, 1500)), ("obj_retype", ctx.n(16, 1000))]
         idx = 0
         for stream, cnt in plan:
             for _ in range(cnt):
@@ -1965,6 +2212,10 @@ def run(ctx):
                     case = gen_probe_ops_case(rng, prec)
                 elif stream == "registry":
                     case = gen_registry_case(rng, prec)
+                elif stream == "probe_hard2":
+                    case = gen_probe_hard2_case(rng, prec)
+                elif stream == "obj_retype":
+                    case = gen_obj_retype_case(rng, prec)
                 else:
                     case = gen_obj_case(rng, prec)
                     case["stream"], case["route"] = "object_dip", "obj"
